@@ -417,6 +417,41 @@ def weight(r):
     return n * (30 if r["vec"]["type"] == "dense" else 3)
 
 
+def drive_plm(rec):
+    """Associated Legendre tables: pure-Python class, compiled class, scipy reference."""
+    import warnings
+    from scipy.special import sph_harm_y
+    L, x = rec["L"], rec["x1000"] / 1000.0
+    t = {"L": L, "x1000": rec["x1000"], "exc": "", "off": False, "py": [], "cy": [], "ref": [],
+         "meta": {"recipe": rec, "source": "plm-tables", "nontrivial": True,
+                  "impl_call": "chmpy.shape.AssocLegendre(%d).evaluate_batch(%r) vs chmpy.shape._sht.AssocLegendre" % (L, x)}}
+    ms = np.concatenate([np.full(L + 1 - m, m) for m in range(L + 1)])
+    ls = np.concatenate([np.arange(m, L + 1) for m in range(L + 1)])
+    ref = ((-1.0) ** ms) * np.asarray(sph_harm_y(ls, ms, math.acos(x), 0.0)).real
+
+    def q(arr):
+        out = []
+        for v in np.asarray(arr, dtype=float).ravel():
+            if not math.isfinite(v) or abs(v) > 7.9:
+                t["off"] = True
+                out.append(0)
+            else:
+                out.append(int(round(v * (1 << 28))))
+        return out
+    t["ref"] = q(ref)
+    t["off"] = False
+    try:
+        with warnings.catch_warnings():
+            warnings.simplefilter("ignore")
+            from chmpy.shape import AssocLegendre as PyPlm
+            from chmpy.shape._sht import AssocLegendre as CyPlm
+            t["py"] = q(PyPlm(L).evaluate_batch(x))
+            t["cy"] = q(CyPlm(L).evaluate_batch(x))
+    except Exception as e:
+        t["exc"] = type(e).__name__
+    return t
+
+
 def run(ctx, explain=False):
     lv = ctx.pick(4, 5)
     ctx.model_check("mc/MC_SHT.tla", MC_CFG % lv, name="MC_SHT(L<=%d vectors, L<=64 layouts/grid)" % lv, timeout=1200)
@@ -435,6 +470,10 @@ def run(ctx, explain=False):
         if t is not None:
             batch.append(t)
             acc += size_of(t)
+    # the Legendre tables themselves: pure-Python class vs compiled class vs scipy
+    plm_Ls = ctx.pick([1, 4, 12, 16, 17, 24, 33, 47], list(range(0, 65)))
+    plm = [{"L": L, "x1000": x} for L in plm_Ls for x in ctx.pick((-930, 0, 500), (-999, -930, -200, 0, 333, 500, 999))]
+    ctx.validate("trace/Trace_Plm.tla", pool_map(drive_plm, plm), name="Trace_Plm", timeout=1200)
     Ls = sorted({r["L"] for r in rs})
     ctx.exhaustive = False
     ctx.rule = ("L in %s; per L and kind (real, complex): 3 dense Gaussian-integer vectors (every channel non-zero) "
